@@ -55,7 +55,8 @@ def _worker(conn, prop, tier, qid, excludes):
         mod = harness_module(prop)
         q = _find_query(mod, tier, qid)
         fn = with_excludes(q.fn, excludes)
-        res = engine.explore(q.qid, fn, timeout=q.timeout, per_path_timeout=q.per_path_timeout)
+        smoke = float(os.environ.get("VERIF_SMOKE_S", "0") or 0)    # harness smoke test: every query for a few seconds only
+        res = engine.explore(q.qid, fn, timeout=min(q.timeout, smoke) if smoke else q.timeout, per_path_timeout=q.per_path_timeout)
         conn.send(res.asdict())
     except BaseException as e:  # noqa
         conn.send({"qid": qid, "status": "error", "error": "worker: %s: %s\n%s" % (
